@@ -220,6 +220,7 @@ let () =
        let line = input_line stdin in
        incr lineno;
        if String.length line > 0 && line.[0] <> '#' then begin
+         (try
          let fields = Array.of_list (split_on '\t' line) in
          let n = Array.length fields in
          let find m = let r = ref n in Array.iteri (fun i x -> if x = m && !r = n then r := i) fields; !r in
@@ -244,13 +245,16 @@ let () =
            | Oracle_miss k -> ("ORACLE", "miss " ^ k)
            | Failure msg -> ("ERROR", msg)
            | Stack_overflow -> ("ERROR", "stack overflow")
+           | ex -> ("ERROR", "exception " ^ Printexc.to_string ex)
          in
          Printf.printf "%d\tL1\t%s\t%s\n" !lineno (fst verdict) (snd verdict);
          if !oracle_bad then Printf.printf "%d\tASSUME\tlbc\tFAIL\tlinebreaks() violated an assumed property\n" !lineno;
          (try Checks.run !lineno e.lbc e.ofit args impl (if irec + 1 < n then fields.(irec + 1) else "-")
           with
           | Oracle_miss k -> Printf.printf "%d\tL2\t-\tskip\toracle miss %s\n" !lineno k
-          | Failure msg -> Printf.printf "%d\tL2\t-\tERROR\t%s\n" !lineno msg)
+          | Failure msg -> Printf.printf "%d\tL2\t-\tERROR\t%s\n" !lineno msg
+          | ex -> Printf.printf "%d\tL2\t-\tERROR\texception %s\n" !lineno (Printexc.to_string ex))
+          with ex -> Printf.printf "%d\tL1\tERROR\tunparsable case (%s)\n" !lineno (Printexc.to_string ex))
        end
      done
    with End_of_file -> ());
